@@ -65,6 +65,7 @@ def run(ctx):
 
     n_access = 0
     lookups = {}   # id(node) -> which map
+    lookups_all = {n.get('id'): w for n, c in walk(rbody) if n['k'] == 'MethodCall' for w in ('result', 'search') if C.is_map_place(n['recv'], w) and n['name'] in ('get', 'remove', 'get_mut', 'remove_entry')}
     for n, c in walk(rbody):
         if n['k'] != 'MethodCall':
             continue
@@ -79,7 +80,13 @@ def run(ctx):
                 k = hirq.strip_casts(L.origin(n['args'][0]))
                 ctx.add('R2.key-is-decoded-id', '%s|%s' % (which, m), loc(n), k == o_id,
                         'routing map `%s` accessed with key %s, not the ID decoded from this response (%s)' % (which, hirq.fmt_origin(k), hirq.fmt_origin(o_id)))
-                ctx.add('R2.map-method', '%s|%s' % (which, m), loc(n), m in ('get', 'remove', 'get_mut', 'contains_key', 'remove_entry'),
+                okm = m in ('get', 'remove', 'get_mut', 'contains_key', 'remove_entry')
+                if m == 'insert' and k == o_id and len(n['args']) == 2:
+                    # putting back, under the decoded ID, the sender that was taken out under it (what is put back is decided on the
+                    # paths: R4 / driver.net_registration)
+                    vo = L.origin(n['args'][1])
+                    okm = vo[0][0] == 'call' and lookups_all.get(vo[0][2]) == which and vo[1] == (('variant', 'Some', 0),)
+                ctx.add('R2.map-method', '%s|%s' % (which, m), loc(n), okm,
                         'unexpected routing-map method `%s` in the response arm' % m)
         if C.is_idset_place(n['recv']) and n['args']:
             k = hirq.strip_casts(L.origin(n['args'][0]))
@@ -169,11 +176,16 @@ def run(ctx):
                 sid = node.get('id')
                 if sem.succeeded(o, lambda x: sem.has(x, lambda y: y[0] == 'call' and y[3] == sid)) or not sem.tested(o, lambda x: sem.has(x, lambda y: y[0] == 'call' and y[3] == sid)):
                     delivered += 1
-                    ends.add(bool(driver.map_calls(C, o, 'search', ('remove',))))
+                    ends.add(driver.net_registration(C, o, 'search', ('field', MSG, '0')) != 'kept')
         exp = RFC4511_SEARCH_RESP.get(v)
         if exp is None:
             ctx.add('R4.entry', 'op %d' % v, loc(rbody), not items,
                     'protocolOp %d under a search ID is forwarded as %s; RFC 4511 defines no search response with that number' % (v, sorted(items)))
+            # ... and such a message leaves the search as it was: still routed (its later items must still reach it), its ID still reserved
+            touched = [o for o in outs if o.kind != 'div' and (driver.net_registration(C, o, 'search', ('field', MSG, '0')) != 'kept' or driver.map_calls(C, o, 'idset', ('remove',)))]
+            stray = [o for o in touched if any(t and a[0] == 'is' and a[2] == 'Some' and a[1][0] == 'call' and 'HashMap' in a[1][1] and a[1][2] and driver.norm_self(a[1][2][0]) == ('field', driver.SELF, C.searchmap) for a, t in o.st.pc)]
+            ctx.add('R4.stray-message-leaves-the-search-alone', 'op %d' % v, loc(rbody), not stray,
+                    'a message with protocolOp %d (no search response) under the ID of a running search un-routes the search or releases its ID: the search\'s remaining items are then delivered to nobody' % v)
         else:
             ok = items == {exp} and ends == {exp == 'SearchItem::Done'}
             ctx.add('R4.entry', 'op %d' % v, loc(rbody), ok,
